@@ -30,6 +30,7 @@ import reader_dump as rd
 import array_harness as ah
 import reserve_many
 import ref_modules
+import dead_code
 from common import prove, leanchecker
 from vlib import log
 
@@ -315,6 +316,28 @@ def run(tier):
             for j, opts in enumerate(optsets):
                 valid.append((label, data, opts, ASAN_LATER, ("gcc-strict", "clang-strict", "gcc-recover")[(k + j) % 3]))
         chk.coverage["reference_pairs"] = npairs
+        # unreachable code that is valid only on a polymorphic stack (block/loop/if inside dead code, pops from the empty stack, ...)
+        dead_mods = {}
+        ndead = ninvalid = 0
+        try:
+            from wasmgen import v8 as _v8
+        except Exception:                       # pragma: no cover
+            _v8 = None
+        for k, (label, mod) in enumerate(dead_code.modules(chk.rng, tier)):
+            data = encode(mod)
+            if _v8 is not None and not _v8.validate(data):
+                ninvalid += 1                   # a generator problem, not the translator's: skipped and reported in the evidence
+                continue
+            dead_mods[label] = mod
+            ndead += 1
+            osets = OPTION_SETS if tier == "thorough" else [OPTION_SETS[(k * 3 + j * 5) % len(OPTION_SETS)] for j in range(3)]
+            for j, opts in enumerate(osets):
+                valid.append((label, data, opts, ASAN_LATER, ("gcc-strict", "clang-strict", "gcc-recover")[(k + j) % 3]))
+        chk.coverage["dead_code_modules"] = ndead
+        chk.coverage["dead_code_functions"] = sum(len(m_.funcs) - 2 for m_ in dead_mods.values())
+        chk.coverage["dead_code_modules_rejected_by_v8"] = ninvalid
+        if ninvalid:
+            chk.notes.append(f"dead-code generator produced {ninvalid} module(s) V8 rejects; they were skipped")
         nmod = 4 if tier == "quick" else 30
         small = []
         for profile in PROFILES:
@@ -413,6 +436,20 @@ def run(tier):
                     nmis += 1
                     broken.append({"kind": "correspondence", "msg": f"model accepts {label} {opts} without undefined behaviour but the reader reports {reader_reports[:2]}",
                                    "hex": data.hex()[:2000]})
+        # a finding on a dead-code module: reduce the failing input to ONE function of the family
+        for key, f in list(findings.items()):
+            mod = dead_mods.get(f.get("label"))
+            if mod is None:
+                continue
+            for fi, fn in enumerate(mod.funcs[2:]):
+                name = bytes(mod.exports[fi].name).decode()
+                one = encode(dead_code.single(name, dead_code.VT[fn.type - 2], fn.body))
+                r1 = run_case(exes[f["build"]], d, 20_000_000 + fi, one, f["opts"], f["asan_options"])
+                k1 = [site_key(kk, ss) for kk, ss, _m, _r in r1["reports"]] or (["signal-" + r1["signal"]] if r1["signal"] else [])
+                if key in k1:
+                    f.update({"data": one, "rc": r1["rc"], "signal": r1["signal"], "reports": r1["reports"][:4], "stderr_tail": r1["stderr_tail"],
+                              "label": f["label"] + ":" + name})
+                    break
         chk.coverage["cases_valid"] = len(valid)
         chk.coverage["cases_truncated"] = len(trunc)
         chk.coverage["truncated_modules"] = len({c[0].split("@")[0] for c in trunc})
@@ -439,6 +476,8 @@ def run(tier):
         what = DESCR.get(key, f"the instrumented translator reports {f['reports'][:1] or f['signal'] or f['rc']} on a "
                          + ("valid module" if True else ""))
         extra = {}
+        if str(f.get("label") or "").startswith("dead-code:"):
+            what += f" (function {f['label']}: unreachable code on a polymorphic stack; w2c2 {' '.join(f['opts'])})"
         if f.get("ref") is not None:
             what += f" with -r REFERENCE ({f['label']}): w2c2 {' '.join(f['opts'])} -r ref.wasm m.wasm m.c"
             extra = {"ref_hex": f["ref"].hex(), "pair": f["label"]}
